@@ -1,9 +1,13 @@
-(* h_code.ml - translated functions (CLite programs of Gen/Code.v) against the models.
-   case: (reporter <digits of the pipe: 1 pass 2 fail 3 skipped 4 completion 5 exception> <p> <f> <s> <e>)
-   result: for read_reporter_results, reporter_finish_test, reporter_finish_suite the summary vector
-   of the translated code and of the model *)
+(* h_code.ml - translated functions (CLite programs of Gen/Code.v, run by the extracted
+   interpreter) against the hand-written models.  One case per line:
+   (reporter <digits of the pipe: 1 pass 2 fail 3 skipped 4 completion 5 exception> <p> <f> <s> <e>)
+   (str percent|xmlesc|names <hex bytes>)
+   (match <hex pattern> <hex context> <hex name>)
+   (mocks <unlimited> <f> ((fn line ttl called trig) ...))        every queue function for function f
+   (succ <unlimited> <f> (f1 f2 ...))
+   result: "<what> <code vector> | <model vector>" parts separated by " ; " *)
 open Model
-type string = Stdlib.String.t   (* Coq's own string type is extracted too (CLite): keep OCaml's here *)
+type string = Stdlib.String.t
 open Util
 
 let msg_of_char = function
@@ -11,14 +15,42 @@ let msg_of_char = function
   | c -> failwith (Printf.sprintf "bad record %c" c)
 
 let zs l = String.concat "," (List.map (fun z -> string_of_int (int_of_z z)) l)
+let zbytes_of_hex (h : string) : z list =
+  if h = "-" then [] else List.init (String.length h / 2) (fun i -> z_of_int (int_of_string ("0x" ^ String.sub h (2 * i) 2)))
+let pair name c m = Printf.sprintf "%s %s | %s" name (zs c) (zs m)
 
 let code_case (s : sexp) : string =
   match lst s with
   | A "reporter" :: A pipe :: A p :: A f :: A sk :: A e :: [] ->
       let pipe = if pipe = "-" then [] else List.map msg_of_char (List.init (String.length pipe) (String.get pipe)) in
       let k = { passes = z_of_string p; failures = z_of_string f; skips = z_of_string sk; exceptions = z_of_string e } in
-      Printf.sprintf "read %s | %s ; ftest %s | %s ; fsuite %s | %s"
-        (zs (code_read_results pipe k)) (zs (model_read_results pipe k))
-        (zs (code_finish_test pipe k)) (zs (model_finish_test pipe k))
-        (zs (code_finish_suite pipe k)) (zs (model_finish_suite pipe k))
+      String.concat " ; " [pair "read" (code_read_results pipe k) (model_read_results pipe k);
+                           pair "ftest" (code_finish_test pipe k) (model_finish_test pipe k);
+                           pair "fsuite" (code_finish_suite pipe k) (model_finish_suite pipe k)]
+  | A "str" :: A which :: A hex :: [] ->
+      let b = zbytes_of_hex hex in
+      (match which with
+       | "percent" -> pair "percent" (code_double_percent b) (model_double_percent b)
+       | "xmlesc" -> pair "xmlesc" (code_xml_escaped b) (model_xml_escaped b)
+       | "names" -> pair "names" (code_names b) (model_names b)
+       | _ -> failwith "str: which?")
+  | A "match" :: A p :: A c :: A n :: [] ->
+      pair "match" (code_matches (zbytes_of_hex p) (zbytes_of_hex c) (zbytes_of_hex n))
+                   (model_matches (zbytes_of_hex p) (zbytes_of_hex c) (zbytes_of_hex n))
+  | A "mocks" :: A unl :: A f :: q :: [] ->
+      let unl = z_of_string unl and f = nat_of_int (int_of_string f) in
+      let q = List.map (fun e -> match lst e with
+          | [A fn; A line; A ttl; A called; A trig] ->
+              { efn = nat_of_int (int_of_string fn); eline = nat_of_int (int_of_string line); ettl = z_of_string ttl;
+                econs = []; encalled = z_of_string called; entrig = z_of_string trig }
+          | _ -> failwith "mocks: entry") (lst q) in
+      String.concat " ; " [pair "find" (code_find unl q f) (model_find unl q f);
+                           pair "remove_first" (code_remove_first unl q f) (model_remove_first unl q f);
+                           pair "have_always" (code_have_always unl q f) (model_have_always unl q f);
+                           pair "have_never" (code_have_never unl q f) (model_have_never unl q f);
+                           pair "remove_never" (code_remove_never unl q f) (model_remove_never unl q f);
+                           pair "after_use" (code_after_use unl q f) (model_after_use unl q f)]
+  | A "succ" :: A unl :: A f :: l :: [] ->
+      let l = List.map (fun a -> nat_of_int (int_of_string (atom a))) (lst l) in
+      pair "succ" (code_succ (z_of_string unl) l (nat_of_int (int_of_string f))) (model_succ (z_of_string unl) l (nat_of_int (int_of_string f)))
   | _ -> failwith "code: unknown case"
